@@ -4,6 +4,9 @@
 # then runs the named checks against the worktree with the change applied.
 set -u
 name=$1; wt=$2; shift 2
+# demos of feature-dependent seeds (C16) only exist in builds without the default features
+demoflags=""
+case $name in C16-*) demoflags="--no-default-features --features macros";; esac
 d=/verif/seeded/$name
 log=$d/confirm.log
 export CARGO_NET_OFFLINE=true
@@ -17,12 +20,12 @@ git apply $d/patch.diff || { echo "patch does not apply" | tee -a $log; exit 9; 
 suite=$(CARGO_TARGET_DIR=$wt/target cargo test --workspace --offline 2>&1 | grep -E "^test result" | awk '{p+=$4; f+=$6} END{print p" passed "f" failed"}')
 echo "suite with change: $suite" | tee -a $log
 cp $d/demo.rs embedded-cli/tests/seed_demo.rs
-with=$(CARGO_TARGET_DIR=$wt/target cargo test -p embedded-cli --offline --test seed_demo 2>&1 | grep -E "^test result" | tail -1)
+with=$(CARGO_TARGET_DIR=$wt/target cargo test -p embedded-cli --offline $demoflags --test seed_demo 2>&1 | grep -E "^test result" | tail -1)
 echo "demo with change: $with" | tee -a $log
 rm embedded-cli/tests/seed_demo.rs
 git checkout -q -- .
 cp $d/demo.rs embedded-cli/tests/seed_demo.rs
-without=$(CARGO_TARGET_DIR=$wt/target cargo test -p embedded-cli --offline --test seed_demo 2>&1 | grep -E "^test result" | tail -1)
+without=$(CARGO_TARGET_DIR=$wt/target cargo test -p embedded-cli --offline $demoflags --test seed_demo 2>&1 | grep -E "^test result" | tail -1)
 echo "demo without change: $without" | tee -a $log
 rm embedded-cli/tests/seed_demo.rs
 git apply $d/patch.diff
